@@ -35,6 +35,17 @@ CLAIMED = {
          "classes. Controls that must vary (dv_cmp, ep_mul_lwnaf, bn_mxp_slide) are run every time.",
          "Trusts that instrumentation does not change control flow at basic-block/call level; says nothing about micro-architectural timing.",
          "execution-trace monitor (trace-pc basic-block traces + group-level call traces) over secret classes", "DESIGN.md §3 C20"),
+ "C08": ("fault_enumeration",
+         "Sanitizer monitoring (ASan+UBSan, fatal reports) of (a) a boundary sweep: operand sizes around the configured precision, buffer "
+         "lengths around every required size, counts n>=0 of the batch functions, recodings with *len around the requirement and "
+         "degenerate scalars, KDF output lengths, short RSA buffers - all caller objects are exact-size heap blocks and every case runs "
+         "under two slack-poison patterns; (b) allocation-failure enumeration on an ALLOC=DYNAMIC build with a countdown injector: each "
+         "failure point of ~45 recorded calls is failed in turn, accepted outcomes are an error or the correct result, never a report, a "
+         "leak (ASan heap statistics vs the successful run) or an unusable library; (c) a reduced pass of every other property's workload "
+         "with the sanitizers as the only oracle.",
+         "Red-zone sanitizers miss non-adjacent and intra-object overflows; only executed paths are judged; allocation failure is "
+         "modelled as NULL returns of malloc/calloc/realloc.",
+         "ASan/UBSan boundary sweep + exhaustive allocation-failure injection per recorded call + cross-property sampler", "DESIGN.md §3 C08"),
 }
 NOT_YET = {}
 
